@@ -205,6 +205,10 @@ func GenSProgram(t *rapid.T, cfg SGenCfg) SProgram {
 		case "promotecp":
 			nf := rapid.IntRange(1, nodes).Draw(t, "ncpfail")
 			p.Ops = append(p.Ops, SOp{K: "promote", Node: rapid.IntRange(0, nodes-1).Draw(t, "node"), Fail: rapid.Permutation(seqInts(nodes)).Draw(t, "cpfailperm")[:nf]})
+		case "errio":
+			off := rapid.Int64Range(0, total-1).Draw(t, "off")
+			l := rapid.Int64Range(1, min64(total-off, 24)).Draw(t, "len")
+			p.Ops = append(p.Ops, SOp{K: "errio", Node: rapid.IntRange(0, nodes-1).Draw(t, "node"), Off: off, Len: l, Seed: rapid.IntRange(1, 250).Draw(t, "seed")})
 		case "setmodeseq":
 			p.Ops = append(p.Ops, SOp{K: "setmodeseq", Node: rapid.IntRange(0, nodes-1).Draw(t, "node"),
 				Name: rapid.SampledFrom([]string{"ERR,RW", "ERR,RW,RW", "RW,ERR,RW", "ERR,ERR", "ERR,RW,ERR"}).Draw(t, "modeseq")})
